@@ -706,3 +706,118 @@ func TestC03Chunks(t *testing.T) {
 		Check: c03ChunkCheck,
 	})
 }
+
+// ---------------------------------------------------------------- the switch from one chunk of a port scan to the next
+//
+// The socket of a chunk is closed and the next one opened while replies are still pouring in: a backlog is queued on the
+// old socket when its (short) exit delay ends, and the first replies for the next chunk arrive the moment its filter is
+// installed. Run under the race detector: the two receivers must not work on shared decoding state at the same time, and
+// every record must still be one of the injected frames.
+
+type c12SwitchCase struct {
+	Cmd     string `json:"command"`
+	NRanges int    `json:"port_ranges"`
+	Backlog int    `json:"replies_queued_at_the_last_probe_of_a_chunk"`
+	Seed    int64  `json:"rand_seed"`
+}
+
+func c12SwitchCheck(c c12SwitchCase) *kit.Verdict {
+	v := &kit.Verdict{Units: c.NRanges}
+	kind := scanKind(c.Cmd)
+	base := strings.Fields(c.Cmd)[0]
+	v.Label("scan=%s", kind)
+	var ports []gram.PortRange
+	for i := 0; i < c.NRanges; i++ {
+		ports = append(ports, gram.PortRange{Start: uint16(2000 + 5*i), End: uint16(2000 + 5*i)})
+	}
+	src := uint32(10<<24 | 9<<16)
+	reply := func(k int, chunk int) []byte {
+		rs := chunkRanges(ports, chunk)
+		port := rs[k%len(rs)].Start
+		if base == "udp" {
+			s4, d4 := gram.U32Bytes(src), [4]byte{10, 250, 0, 1}
+			ip := wire.IPv4{ID: uint16(k), Flags: 2, TTL: uint8(1 + k%250), Proto: wire.ProtoICMP, Src: s4, Dst: d4}.Bytes(wire.ICMP{Type: 3, Code: uint8(k % 16), ID: 1, Seq: uint16(k)}.Bytes([]byte("switch")))
+			return append(wire.Eth{Dst: [6]byte{2, 0, 0, 0, 0, 1}, Src: [6]byte{2, 0, 0, 0, 0, 2}, Type: wire.EtherIPv4}.Bytes(), ip...)
+		}
+		return c16Reply(kind, true, src, port)
+	}
+	injected := map[string]int{}
+	var mu sync.Mutex
+	perSocket := map[int]int{}
+	note := func(fr []byte, chunk int) {
+		sc := shape.Scan{Kind: kind, Ethernet: true, Subnet: &gram.Prefix{Base: src, Bits: 32, Addr: src}, Ports: chunkRanges(ports, chunk), AllPorts: ports}
+		if base == "udp" {
+			sc.Ports, sc.AllPorts = nil, nil
+		}
+		if verdict, key := shape.Classify(sc, fr); verdict == shape.Yes {
+			mu.Lock()
+			injected[key]++
+			mu.Unlock()
+		}
+	}
+	nchunks := (c.NRanges + 199) / 200
+	sc := vwire.Scenario{
+		OnFilter: func(w *vwire.World, s *vwire.Socket) {
+			// the first replies of this chunk arrive the moment its socket is ready
+			for k := 0; k < 20; k++ {
+				fr := reply(k, s.Index)
+				note(fr, s.Index)
+				s.Inject(fr)
+			}
+		},
+		OnWrite: func(w *vwire.World, s *vwire.Socket, wr *vwire.Write) error {
+			mu.Lock()
+			perSocket[s.Index]++
+			n := perSocket[s.Index]
+			mu.Unlock()
+			if n == len(chunkRanges(ports, s.Index)) {
+				// last probe of the chunk: a backlog that outlasts the exit delay
+				for k := 0; k < c.Backlog; k++ {
+					fr := reply(20+k, s.Index)
+					note(fr, s.Index)
+					s.Inject(fr)
+				}
+			}
+			return nil
+		}}
+	files := &cmdFiles{}
+	defer files.cleanup()
+	args := append([]string{}, strings.Fields(c.Cmd)...)
+	args = append(args, "-i", "lo", "--srcip", c01SrcIP, "--srcmac", c01SrcMAC, "--json", "--exit-delay", "1ms", "--gwmac", c01GwMAC, "-a", files.write("arpcache", ""),
+		"-p", renderPorts(ports), "10.9.0.0/32")
+	res := runCmd(cmdRun{Args: args, Seed: c.Seed, World: vwire.NewWorld(sc), Timeout: 120 * time.Second})
+	line := "sx " + clipN(strings.Join(args, " "), 300)
+	if res.Hung || res.Err != nil {
+		return v.Failf("%s: hung=%v err=%v\nstderr: %s", line, res.Hung, res.Err, clipN(res.Stderr, 600))
+	}
+	got := map[string]int{}
+	for _, l := range strings.Split(strings.TrimSuffix(res.Stdout, "\n"), "\n") {
+		if l == "" {
+			continue
+		}
+		k, err := recordKey(kind, l)
+		if err != nil {
+			return v.Failf("%s: %v", line, err)
+		}
+		got[k]++
+	}
+	for k, n := range got {
+		if n > injected[k] {
+			return v.Failf("%s\n%d port ranges = %d chunks, %d replies queued at the end of every chunk: record %s x%d, injected %d times (a record must be one of the frames, field for field)", line, c.NRanges, nchunks, c.Backlog, k, n, injected[k])
+		}
+	}
+	v.NonTrivial = nchunks >= 2 && len(got) > 0
+	return v
+}
+
+func TestC12ChunkSwitch(t *testing.T) {
+	kit.Run(t, kit.Spec[c12SwitchCase]{
+		Prop: "C12",
+		Rule: "tcp fin / tcp syn / udp port scans of 401..1001 single-port ranges (3..6 chunks, one socket each) with --exit-delay 1ms on the virtual wire, race detector on: 300..3000 replies are queued on a chunk's socket at its last probe (the receiver is still busy when the chunk ends) and 20 replies arrive the moment the next socket is ready. Oracle: no data race between the receivers of consecutive chunks (reported by the race detector in sx code), no crash, every record is one of the injected frames. non-trivial: >=2 chunks and some record; distinct by case",
+		Gen: func(t *rapid.T) c12SwitchCase {
+			return c12SwitchCase{Cmd: rapid.SampledFrom([]string{"tcp fin", "tcp syn", "udp"}).Draw(t, "cmd"), NRanges: rapid.SampledFrom([]int{401, 601, 1001}).Draw(t, "nranges"),
+				Backlog: rapid.SampledFrom([]int{300, 1000, 3000}).Draw(t, "backlog"), Seed: rapid.Int64().Draw(t, "seed")}
+		},
+		Check: c12SwitchCheck,
+	})
+}
